@@ -51,6 +51,8 @@ def enumerated(tier):
       yield {'prog': prog, 'cfg': {}, 'space': which}
   for case in DIRECTED:
     yield case
+  for case in nested_subtests():
+    yield case
 
 
 # Directed shapes named in the statement (kept tiny; the enumeration covers the
@@ -81,6 +83,25 @@ DIRECTED = [
               ['C', 'c2', ['NOT_ANY', ['D1']], 'S'],
               ['C', 'c3', ['NOT_ALL', ['D1', 'D2']], 'S'], _p('never')], 'cfg': {}},
 ]
+
+
+def nested_subtests():
+  """A subtest nested in a subtest, phases of the inner one between a phase of
+  the outer one and a checkpoint / later phase of the outer one."""
+  for a, b, b2 in itertools.product(['C', 'F', 'U', 'X'], ['C', 'F', 'U'],
+                                    ['C', 'F']):
+    for kind, act in itertools.product(['last', 'all', 'sub'], ['U', 'S']):
+      for where in ('after_inner', 'inside_inner', 'before_inner'):
+        inner = [_p('b', r=b), _p('b2', r=b2)]
+        cp = ['C', 'c', kind, act]
+        if where == 'inside_inner':
+          inner = [inner[0], cp, inner[1]]
+          body = [_p('a', r=a), ['T', 'inner', inner], _p('d')]
+        elif where == 'after_inner':
+          body = [_p('a', r=a), ['T', 'inner', inner], cp, _p('d')]
+        else:
+          body = [_p('a', r=a), cp, ['T', 'inner', inner], _p('d')]
+        yield {'prog': [['T', 'outer', body], _p('z')], 'cfg': {}}
 
 
 def sampled(tier, rng):
